@@ -610,24 +610,24 @@ static int restore_interior_string (char **val, svalue_t * sv) {
 
 static int parse_numeric (char **cpp, char c, svalue_t * dest) {
   char *cp = *cpp;
-  int res, neg;
+  uint64_t res; /* magnitude: unsigned, so that every int64 (INT64_MIN included) is restored and long digit runs wrap */
+  int neg;
 
   if (c == '-')
     {
       neg = 1;
-      res = 0;
       c = *cp++;
       if (!isdigit (c))
         return 0;
     }
   else
     neg = 0;
-  res = c - '0';
+  res = (uint64_t)(c - '0');
 
   while ((c = *cp++) && isdigit (c))
     {
       res *= 10;
-      res += c - '0';
+      res += (uint64_t)(c - '0');
     }
   if (c == '.')
     {
@@ -644,7 +644,7 @@ static int parse_numeric (char **cpp, char c, svalue_t * dest) {
         }
       while ((c = *cp++) && isdigit (c));
 
-      f1 += res;
+      f1 += (double)res;
       if (c == 'e')
         {
           int expo = 0;
@@ -688,7 +688,7 @@ static int parse_numeric (char **cpp, char c, svalue_t * dest) {
               expo *= 10;
               expo += (c - '0');
             }
-          f1 = res * pow (10.0, expo);
+          f1 = (double)res * pow (10.0, expo);
         }
       else if (c == '-')
         {
@@ -697,7 +697,7 @@ static int parse_numeric (char **cpp, char c, svalue_t * dest) {
               expo *= 10;
               expo += (c - '0');
             }
-          f1 = res * pow (10.0, -expo);
+          f1 = (double)res * pow (10.0, -expo);
         }
       else
         return 0;
@@ -710,7 +710,7 @@ static int parse_numeric (char **cpp, char c, svalue_t * dest) {
   else
     {
       dest->type = T_NUMBER;
-      dest->u.number = (neg ? -res : res);
+      dest->u.number = (int64_t)(neg ? 0 - res : res);
       *cpp = cp;
       return 1;
     }
